@@ -187,8 +187,9 @@ class Executor(object):
                 self.iters.append({'kind': 'c', 'path': p, 'gen': ch.data_chunks(), 'k': 0, 'done': False,
                                    'mark': None})
             elif kind == 'fiter':
+                # op[1] true: every chunk object of this iterator is only inspected after the NEXT one has been requested
                 self.iters.append({'kind': 'f', 'path': None, 'gen': self.tf.data_chunks(), 'k': 0, 'done': False,
-                                   'mark': None})
+                                   'mark': None, 'deferred': bool(op[1]) if len(op) > 1 else False, 'pending': None})
             elif kind == 'next':
                 live = [it for it in self.iters if not it['done']]
                 if not live:
@@ -201,6 +202,9 @@ class Executor(object):
                 it = live[op[1] % len(live)]
                 it['done'] = True
                 it['gen'] = None
+                if it.get('pending') is not None:
+                    self._inspect_file_chunk(*it['pending'])
+                    it['pending'] = None
         except Exception as e:      # noqa
             self._v('%s:raised' % kind, '%r -> %s' % (op, describe_exc(e)), exc_key(e))
         finally:
@@ -219,6 +223,9 @@ class Executor(object):
             chunk = next(it['gen'])
         except StopIteration:
             it['done'] = True
+            if it.get('pending') is not None:
+                self._inspect_file_chunk(*it['pending'])
+                it['pending'] = None
             total = len(self.canon_chan[it['path']]) if it['kind'] == 'c' else len(self.canon_file)
             if it['k'] != total:
                 self._v('iterator_complete', '%s iterator ended after %d chunks, a fresh one yields %d' % (
@@ -242,23 +249,32 @@ class Executor(object):
             if msgs:
                 self._v('chunk_values:channel', msgs[0])
         else:
-            if k >= len(self.canon_file):
-                self._v('iterator_extra', 'file iterator yielded chunk %d, a fresh one yields only %d' % (
-                    k, len(self.canon_file)))
-                return True
-            row = self.canon_file[k]
-            for p in self.chans:
-                g, c = split_path(p)
-                cc = chunk[g][c]
-                off, want = row[p]
-                t = self.ex.objects[p]['type']
-                if cc.offset != off:
-                    self._v('chunk_offset', 'file chunk %d %s offset %d, fresh iterator %d' % (k, p, cc.offset, off))
-                msgs = self._same(t, want, cc[:], 'file chunk %d %s' % (k, p))
-                if msgs:
-                    self._v('chunk_values:file', msgs[0])
-                    break
+            if it.get('deferred'):
+                self.nt = True
+                prev, it['pending'] = it.get('pending'), (k, chunk)
+                if prev is not None:
+                    self._inspect_file_chunk(*prev)
+            else:
+                self._inspect_file_chunk(k, chunk)
         return True
+
+    def _inspect_file_chunk(self, k, chunk):
+        if k >= len(self.canon_file):
+            self._v('iterator_extra', 'file iterator yielded chunk %d, a fresh one yields only %d' % (
+                k, len(self.canon_file)))
+            return
+        row = self.canon_file[k]
+        for p in self.chans:
+            g, c = split_path(p)
+            cc = chunk[g][c]
+            off, want = row[p]
+            t = self.ex.objects[p]['type']
+            if cc.offset != off:
+                self._v('chunk_offset', 'file chunk %d %s offset %d, fresh iterator %d' % (k, p, cc.offset, off))
+            msgs = self._same(t, want, cc[:], 'file chunk %d %s' % (k, p))
+            if msgs:
+                self._v('chunk_values:file', msgs[0])
+                break
 
     def finish(self):
         """drain all live iterators: each must deliver its complete remaining sequence"""
@@ -390,9 +406,9 @@ def make_machine(rec, file_strategy, steps):
         def new_channel_iter(self, ci):
             self._do(['citer', ci])
 
-        @rule()
-        def new_file_iter(self):
-            self._do(['fiter'])
+        @rule(deferred=st.booleans())
+        def new_file_iter(self, deferred):
+            self._do(['fiter', int(deferred)])
 
         @rule(k=_small)
         def advance(self, k):
